@@ -115,6 +115,24 @@ def validate (name : String) (tokens : List NTok) : Option (Option NVal) :=
     | [t] => some (evalClauses cs false t)
     | _ => some none
 
+/-! ### "One or two lengths": `border-spacing`, `border-*-radius` -/
+
+/-- `lengths = [get_length(token, negative, percentage) for token in tokens]`, `if all(lengths)`: one length is
+doubled, two are kept, anything else (no token, three tokens, a token that is not such a length) is `None`. -/
+def lengthList (negative percentage : Bool) (toks : List LTok) : Option (Spec × Spec) :=
+  match toks.map (getLength negative percentage) with
+  | [some a] => some (a, a)
+  | [some a, some b] => some (a, b)
+  | _ => none
+
+/-- The flags of a property's "one or two lengths" validator (generated). -/
+def lengthListFlags (name : String) : Option (Bool × Bool) :=
+  (Gen.NumericC07.lengthListValidators.lookup name).map fun e => (e.2.1, e.2.2)
+
+/-- `PROPERTIES[name](tokens)` for such a property. Outer `none`: not one of them. -/
+def validateLengthList (name : String) (toks : List LTok) : Option (Option (Spec × Spec)) :=
+  (lengthListFlags name).map fun f => lengthList f.1 f.2 toks
+
 /-! ### `image-resolution`: `get_resolution` (css/utils.py) and what the value is used for -/
 
 /-- `RESOLUTION_TO_DPPX[unit]` = `{'dppx': 1, 'dpi': 1 / LENGTHS_TO_PIXELS['in'], 'dpcm': 1 / LENGTHS_TO_PIXELS['cm']}`
@@ -125,11 +143,17 @@ def resolutionFactor (unit : String) : Option Rat :=
   else if unit == "dpcm" then (factor "cm").map fun k => 1 / k
   else none
 
-/-- `get_resolution(token)`: the validator of `image-resolution` is exactly this (`@single_token`): any dimension
-in a resolution unit, **whatever its sign**. -/
+/-- `get_resolution(token)`: any dimension in a resolution unit, whatever its sign. -/
 def getResolution : LTok → Option Rat
   | .dimension v u _ => (resolutionFactor u).map fun k => v * k
   | _ => none
+
+/-- The validator of `image-resolution` (`@single_token def image_resolution(token)`, since `fix:` d011d54):
+`resolution = get_resolution(token); if resolution is not None and resolution > 0: return resolution`. -/
+def imageResolution (t : LTok) : Option Rat :=
+  match getResolution t with
+  | some r => if 0 < r then some r else none
+  | none => none
 
 /-- `RasterImage.get_intrinsic_size(resolution, font_size)`: `self.width / resolution, self.height / resolution`. -/
 def rasterIntrinsicSize (width height resolution : Rat) : Except PyErr (Rat × Rat) :=
